@@ -10,6 +10,10 @@ from .contract import REG, Contract, Clause
 from .source import Source
 
 
+def st_spec_only(eng):
+    return False
+
+
 class EngineError(Exception):
     """The function is outside the supported subset / contract drift (exit 2, never a violation)."""
 
@@ -127,6 +131,12 @@ class Engine:
         self.facts = []
         self._fact_ids = set()
         self.undef = []
+        self.unfolding = 0
+        self.quants = {}
+        self._fc_memo = {}
+        self.bound_depth = 0
+        self.typing = {}
+        self.case_tag = ''
         from . import lib
         self.lib = lib
 
@@ -182,7 +192,7 @@ class Engine:
         s2 = st.copy() if copy else st
         if z3.is_true(c):
             return s2
-        s2.pc.append(c)
+        s2.pc.append(cond)      # the unsimplified term: z3's rewriter splits seq.nth otherwise
         t0 = time.time()
         sol = z3.Solver()
         sol.set('timeout', 100 if st.spec else self.prune_ms)
@@ -204,6 +214,117 @@ class Engine:
         else:
             st.pc.append(ax)
 
+    def skolemize(self, g, sk):
+        if z3.is_and(g):
+            return z3.And(*[self.skolemize(c, sk) for c in g.children()])
+        if z3.is_implies(g):
+            return z3.Implies(g.arg(0), self.skolemize(g.arg(1), sk))
+        q = self.quants.get(g.get_id())
+        if q is not None:
+            t, consts, rng, body = q
+            subs = []
+            for c in consts:
+                k = z3.Int(self.name('sk_' + c.decl().name().split('!')[0]))
+                subs.append((c, k))
+                sk.append(k)
+            b = self.skolemize(z3.substitute(body, *subs), sk)
+            if rng:
+                return z3.Implies(z3.And(*[z3.substitute(r, *subs) for r in rng]), b)
+            return b
+        return g
+
+    def instances(self, p, cands, out):
+        """Instances of registered forall-premises (top level, under And / Implies)."""
+        if z3.is_and(p):
+            for c in p.children():
+                self.instances(c, cands, out)
+            return
+        if z3.is_implies(p):
+            sub = []
+            self.instances(p.arg(1), cands, sub)
+            out.extend(z3.Implies(p.arg(0), x) for x in sub)
+            return
+        q = self.quants.get(p.get_id())
+        if q is None:
+            return
+        t, consts, rng, body = q
+        if len(consts) != 1:
+            return
+        for c in cands:
+            b = z3.substitute(body, (consts[0], c))
+            r = [z3.substitute(x, (consts[0], c)) for x in rng]
+            out.append(z3.Implies(z3.And(*r), b) if r else b)
+
+    def nth_concat_facts(self, t, out, seen):
+        stack = [t]
+        visited = set()
+        while stack:
+            x = stack.pop()
+            i = x.get_id()
+            if i in visited or z3.is_quantifier(x):
+                continue
+            visited.add(i)
+            if z3.is_app(x):
+                if x.decl().kind() == z3.Z3_OP_SEQ_NTH and x.num_args() == 2:
+                    sq, ix = x.arg(0), x.arg(1)
+                    if z3.is_app(sq) and sq.decl().kind() == z3.Z3_OP_SEQ_CONCAT and \
+                            sq.num_args() == 2 and i not in seen:
+                        seen.add(i)
+                        a, b = sq.arg(0), sq.arg(1)
+                        la = z3.Length(a)
+                        out.append(z3.Implies(z3.And(ix >= 0, ix < la), x == a[ix]))
+                        out.append(z3.Implies(z3.And(ix >= la, ix < la + z3.Length(b)),
+                                              x == b[ix - la]))
+                stack.extend(x.children())
+
+    def nth_indices(self, t):
+        """Ground index terms of seq.nth applications in t (outside quantifiers)."""
+        key = ('nth', t.get_id())
+        if key in self._fc_memo:
+            return self._fc_memo[key]
+        out, seen, stack = [], set(), [t]
+        while stack:
+            x = stack.pop()
+            i = x.get_id()
+            if i in seen or z3.is_quantifier(x):
+                continue
+            seen.add(i)
+            if z3.is_app(x):
+                if x.decl().kind() == z3.Z3_OP_SEQ_NTH and x.num_args() == 2:
+                    out.append(x.arg(1))
+                stack.extend(x.children())
+        self._fc_memo[key] = out
+        return out
+
+    def fresh_consts(self, t):
+        """Names of the fresh (engine-generated, 'name!n') constants occurring in t."""
+        key = t.get_id()
+        memo = self._fc_memo
+        if key in memo:
+            return memo[key]
+        out = set()
+        seen = set()
+        stack = [t]
+        while stack:
+            x = stack.pop()
+            i = x.get_id()
+            if i in seen:
+                continue
+            seen.add(i)
+            if z3.is_quantifier(x):
+                stack.append(x.body())
+                continue
+            if z3.is_app(x):
+                if x.num_args() == 0:
+                    if x.decl().kind() == z3.Z3_OP_UNINTERPRETED:
+                        n = x.decl().name()
+                        if '!' in n:
+                            out.add(n)
+                else:
+                    stack.extend(x.children())
+        memo[key] = frozenset(out)
+        return memo[key]
+
     def fork(self, st, cond):
         """yield (state, bool) for the feasible sides of cond."""
         a = self.assume(st, cond)
@@ -214,7 +335,37 @@ class Engine:
             yield b, False
 
     def oblige(self, st, kind, label, goal, props=None, line=0, note='', hints=()):
-        prem = list(st.pc) + list(self.facts) + list(hints)
+        prem = list(st.pc) + list(hints)
+        # quantified goals are skolemised; sidecar `forall` premises are instantiated by hand at
+        # the skolem constants and at the ground index terms of the path (no reliance on
+        # E-matching over seq.nth, which neither back end does)
+        sk = []
+        goal = self.skolemize(goal, sk)
+        cands = list(sk)
+        seen = set(c.get_id() for c in cands)
+        for t in prem + [goal]:
+            for ix in self.nth_indices(t):
+                if ix.get_id() not in seen and len(cands) < 12:
+                    seen.add(ix.get_id())
+                    cands.append(ix)
+        inst = []
+        for pz in prem:
+            self.instances(pz, cands, inst)
+        prem += inst
+        # theory-valid helper facts: seq.nth over a concatenation (neither solver splits these
+        # cases on its own when arrays are indexed by the result)
+        nf = []
+        nseen = set()
+        for t in prem + [goal]:
+            self.nth_concat_facts(t, nf, nseen)
+        prem += nf
+        # library-axiom instances: only those that speak about this path's symbols
+        have = set()
+        for t in prem + [goal]:
+            have |= self.fresh_consts(t)
+        for f in self.facts:
+            if self.fresh_consts(f) <= have:
+                prem.append(f)
         for kf in getattr(self, 'known', ()):
             if kf['function'] == self.cur_func and kf['kind'] == kind and kf['label'] == label:
                 # known finding = excluded region: prove the obligation outside `when`, and
@@ -517,6 +668,8 @@ class Engine:
                 return V(MOD, ('repo', imp[1]))
             if imp[0] == 'repoattr':
                 return self.module_attr(st, imp[1], imp[2])
+            if imp[1] in self.lib.LIB:
+                return self.lib.fnv(imp[1])
             return V(MOD, ('lib', imp[1]))
         if name in mod.exprs:
             e = mod.exprs[name]
@@ -946,6 +1099,10 @@ class Engine:
             yield st, V(FN, ('coro', ('repo', modname, qual, recv), args, kwargs))
             return
         if dmod == 'spec':
+            rec = self.recursive_decl(node)
+            if rec is not None:
+                yield st, self.call_recursive(st, node, rec, args, kwargs, line)
+                return
             yield from self.inline(st, dmod, node, None, args, kwargs, line)
             return
         c = self.reg.contracts.get(full)
@@ -960,6 +1117,84 @@ class Engine:
             yield from self.inline(st, dmod, node, recv, args, kwargs, line, env=env)
             return
         yield from self.apply_contract(st, c, full, env, line)
+
+    TYNAMES = {'str': STR, 'int': INT, 'bool': BOOL, 'real': REAL, 'bytes': BYTES, 'any': ANY,
+               'liststr': List(STR)}
+
+    def recursive_decl(self, node):
+        for d in node.decorator_list:
+            if isinstance(d, ast.Call) and isinstance(d.func, ast.Name) and \
+                    d.func.id in ('recursive', 'opaque'):
+                kw = {k.arg: ast.literal_eval(k.value) for k in d.keywords}
+                return kw
+        return None
+
+    def call_recursive(self, st, node, rec, args, kwargs, line):
+        """A recursive spec function is an uninterpreted SMT function of its arguments and of
+        the heap fields it reads; each call site in a contract or hint contributes ONE unfolding of
+        the definition as a fact (fuel 1). Inner recursive calls are not unfolded."""
+        env = self.bind(node, args, kwargs, None, st, 'spec')
+        names = [a.arg for a in node.args.args]
+        ret = self.TYNAMES[rec['returns']]
+        reads = rec.get('reads', [])
+        dom, actual = [], []
+        for loc in reads:
+            cls, field = loc.split('.')
+            fty = self.reg.field_ty(cls, field)
+            for key, sort in self.field_keys((self.reg.root_of(cls), field), fty):
+                dom.append(z3.ArraySort(z3.IntSort(), sort))
+                actual.append(self.heap_arr(st, key, sort))
+        for n in names:
+            v = env[n]
+            if v.ty.kind == 'list' and v.ty.args[0].kind == 'bot':
+                raise EngineError('recursive spec function applied to an untyped empty list')
+            # scalars are passed boxed so that one symbol serves every static typing of a call
+            t = v.t if v.ty.kind in ('list', 'int', 'ref') else box(v)
+            dom.append(t.sort())
+            actual.append(t)
+        sig = '_'.join(str(x).replace(' ', '').replace('(', '').replace(')', '') for x in dom)
+        import zlib
+        f = z3.Function('rec_%s__%d' % (node.name, zlib.crc32(sig.encode()) % 100000),
+                        *(dom + [sort_of(ret)]))
+        term = f(*actual)
+        if self.unfolding == 0 and self.bound_depth == 0:
+            self.unfolding += 1
+            try:
+                clean = State()
+                clean.heap = dict(st.heap)
+                clean.ghost = dict(st.ghost)
+                clean.spec = True
+                benv = dict(env)
+                benv['__parent__'] = None
+                benv['__mod__'] = 'spec'
+                clean.env = benv
+                saved_undef = self.undef
+                self.undef = []
+                alts = []
+                for s3, out in self.ex_block(node.body, clean):
+                    cond = z3.And(*s3.pc) if s3.pc else z3.BoolVal(True)
+                    if out is None or out[0] != 'ret':
+                        self.undef.append(cond)
+                        continue
+                    alts.append((cond, out[1]))
+                und = self.undef
+                self.undef = saved_undef
+                if alts:
+                    body = alts[-1][1]
+                    for c, v in reversed(alts[:-1]):
+                        body = same_sort_merge(c, v, body)
+                    body = self.coerce(body, ret)
+                    bt = box(body) if ret.kind == 'any' else body.t
+                    eq = term == bt
+                    if und:
+                        eq = z3.Implies(z3.Not(z3.Or(*und)), eq)
+                    k = eq.get_id()
+                    if k not in self._fact_ids:
+                        self._fact_ids.add(k)
+                        self.facts.append(eq)
+            finally:
+                self.unfolding -= 1
+        return V(ret, term)
 
     def inline(self, st, modname, node, recv, args, kwargs, line, env=None, parent=None):
         if env is None:
@@ -1032,6 +1267,12 @@ class Engine:
         penv['__mod__'] = 'spec'
         # coerce actuals to declared parameter types
         for n, ty in c.params.items():
+            if isinstance(ty, list) and n in penv:
+                match = [t for t in ty if t.kind == penv[n].ty.kind]
+                if not match:
+                    raise EngineError('actual %r for %s.%s matches none of %r'
+                                      % (penv[n].ty, full, n, ty))
+                ty = match[0]
             if n in penv and penv[n].ty != ty:
                 try:
                     penv[n] = self.coerce(penv[n], ty)
@@ -1046,6 +1287,7 @@ class Engine:
                         props=c.props, line=line)
         pre = st.copy()
         post = st.copy()
+        self.havoc_alloc(post)
         self.havoc(post, c.modifies_, penv, full)
         # outcomes
         whens = []
@@ -1414,8 +1656,8 @@ class Engine:
     # -- loops --------------------------------------------------------------------------------
     def loop_spec(self, s):
         c = self.cur_contract
-        if c is None:
-            return None
+        if c is None or st_spec_only(self):
+            return None, None
         ordn = self.loop_ordinals.get(id(s))
         return c.loops.get(ordn), ordn
 
@@ -1455,6 +1697,7 @@ class Engine:
                         line=s.lineno)
         head = st.copy()
         head.loopw = set()
+        self.havoc_alloc(head)
         env = dict(head.env)
         for loc in spec.modifies:
             if loc.startswith('ghost.') or '.' in loc:
@@ -1473,6 +1716,13 @@ class Engine:
             if head is None:
                 return None
         return head
+
+    def havoc_alloc(self, st):
+        """Objects may have been allocated by earlier iterations / by a callee."""
+        a0 = st.ghost['$alloc'].t
+        a1 = z3.Int(self.name('alloc'))
+        st.pc.append(a1 >= a0)
+        st.ghost['$alloc'] = V(INT, a1)
 
     def fresh_like(self, v, hint, st):
         if v.ty.kind in ('rec', 'tup', 'fn', 'mod', 'exc'):
@@ -1607,14 +1857,15 @@ class Engine:
                 if isinstance(ch, (ast.FunctionDef, ast.AsyncFunctionDef, ast.ClassDef,
                                    ast.Lambda)) and ch is not node:
                     continue
-                if isinstance(ch, (ast.For, ast.While)):
+                if isinstance(ch, (ast.For, ast.While, ast.ListComp)):
                     self.loop_ordinals[id(ch)] = n
                     n += 1
                 visit(ch)
         visit(node)
         # nested function loops get ordinals after the outer ones, in source order
         for ch in ast.walk(node):
-            if isinstance(ch, (ast.For, ast.While)) and id(ch) not in self.loop_ordinals:
+            if isinstance(ch, (ast.For, ast.While, ast.ListComp)) and \
+                    id(ch) not in self.loop_ordinals:
                 self.loop_ordinals[id(ch)] = n
                 n += 1
 
@@ -1631,7 +1882,7 @@ class Engine:
             if n not in c.params:
                 raise EngineError('contract of %s does not type parameter %r'
                                   % (self.cur_func, n))
-            env[n] = self.fresh(c.params[n], n, st, inp=True)
+            env[n] = self.fresh(self.typing.get(n, c.params[n]), n, st, inp=True)
         if a.vararg is not None:
             env[a.vararg.arg] = self.fresh(c.params[a.vararg.arg], a.vararg.arg, st, inp=True)
         if a.kwarg is not None:
@@ -1651,7 +1902,20 @@ class Engine:
         self.cur_contract = c
         self.number_loops(node)
         n0 = len(self.obls)
+        union = [(n, t) for n, t in c.params.items() if isinstance(t, list)]
+        total = 0
+        for combo in itertools.product(*[t for _, t in union]):
+            self.typing = {n: t for (n, _), t in zip(union, combo)}
+            self.case_tag = ','.join('%s:%s' % (n, t.kind) for (n, _), t in zip(union, combo))
+            total += self._verify_case(qualname, c, mod, node)
+        self.cur_func = None
+        self.cur_contract = None
+        return self.obls[n0:], total
+
+    def _verify_case(self, qualname, c, mod, node):
         st = self.initial_state(c, node, mod.name)
+        if self.case_tag:
+            st.trace = st.trace + (self.case_tag,)
         penv = dict(st.env)
         for cl in c.requires_:
             st = self.assume(st, self.spec_bool(cl.src, st, penv), copy=False)
@@ -1682,9 +1946,7 @@ class Engine:
                 self.exit_raise(s1, c, penv, pre, out[1], node)
         if npaths == 0:
             raise EngineError('no feasible path through %s' % qualname)
-        self.cur_func = None
-        self.cur_contract = None
-        return self.obls[n0:], npaths
+        return npaths
 
     def exit_normal(self, st, c, penv, pre, res, node):
         line = node.lineno
